@@ -10,6 +10,7 @@ structure Defs where
   tdefs : List (String × List String) := []      -- reference to a non-builtin base
   groups : List (String × List String) := []
   imports : List (String × List String) := []
+  includes : List (String × List String) := []    -- module / submodule → what it includes
   usedTypes : List String := []                  -- types of leaves
   usedIdents : List String := []
   usedFeats : List String := []
@@ -32,6 +33,8 @@ def collect (j : Json) : Defs :=
       (q (jstr s "name") (jstr d "n"), if builtin (jstr d "base") then [] else [jstr d "base"]),
     groups := mods.flatMap fun s => (jarr s "groupings").map fun d => (q (jstr s "name") (jstr d "n"), (jarr d "uses").map strOf),
     imports := mods.map fun s => (jstr s "name", imp (jstr s "name")),
+    includes := mods.flatMap fun s =>
+      (jstr s "name", (jarr s "includes").map strOf) :: (jarr s "subs").map fun u => (jstr u "name", (jarr u "includes").map strOf),
     usedTypes := mods.flatMap fun s => (jarr s "leaves").filterMap fun l =>
       if jstr l "type" = "identityref" || builtin (jstr l "type") then none else some (jstr l "type"),
     usedIdents := mods.flatMap fun s => (jarr s "leaves").filterMap fun l => if jstr l "type" = "identityref" then some (jstr l "base") else none,
@@ -56,6 +59,8 @@ def verdict (j : Json) (allTypedefs : Bool) : String :=
   let fault := jstr j "fault"
   if fault = "dev-race" || fault = "import-self" then "any"
   else if hasDup (d.tdefs.map (·.1)) || hasDup (d.groups.map (·.1)) then "err:dup"
+  else if d.includes.any (fun (_, is) => is.any fun i => (d.includes.lookup i).isNone) then "err:ref"
+  else if anyCycle d.includes (d.includes.map (·.1)) then "err:import-cycle"
   else if anyCycle d.imports (d.imports.map (·.1)) then "err:import-cycle"
   else if d.imports.any (fun (_, is) => is.any fun i => (d.imports.lookup i).isNone) then "err:ref"
   else if hasDup (d.feats.map (·.1)) then "err:dup"
